@@ -202,6 +202,42 @@ def judge_null(ctx, R, A, r_true, site, tags):
                   detail={"svals_of_basis": sv})
         ctx.check("null:unit_columns", float(np.max(np.abs(np.sqrt((refq.absq(N) ** 2).sum(axis=0)) - 1.0))), C * max(m, n) * EPS,
                   site=st, tags=tags)
+    # explicit rtol (documented: singular values <= rtol * s_max count as zero), for BOTH sides and all four entry points, keyword and positional:
+    # the threshold is placed inside a gap of the oracle spectrum, so the expected column count is known and the basis must be annihilated to the
+    # size of the singular values that were dropped
+    s_all = embed.svals(A)
+    if len(s_all) and s_all[0] > 0:
+        full = np.concatenate([s_all, np.zeros(min(m, n) - len(s_all))]) if len(s_all) < min(m, n) else s_all
+        cuts = []
+        for i in range(len(full) - 1):
+            if full[i] > 0 and full[i] > 16.0 * max(full[i + 1], 1e-13 * full[0]) and full[i] / full[0] > 1e-9:
+                hi_, lo_ = full[i] / full[0], max(full[i + 1] / full[0], 1e-13)
+                cuts.append((float(np.sqrt(hi_ * lo_)), i + 1))
+        for ci, (rt, keep) in enumerate(cuts[:3]):
+            dropped = float(np.sqrt(np.sum(full[keep:] ** 2)))
+            for side, dim in (("right", n), ("left", m)):
+                st = f"{site}:{side}:explicit_rtol"
+                try:
+                    forms = {"null_space:kw": U.quat_null_space(A, side=side, rtol=rt), "null_space:pos": U.quat_null_space(A, side, rt),
+                             "kernel:kw": U.quat_kernel(A, side=side, rtol=rt),
+                             "null_side:pos": (U.quat_null_right if side == "right" else U.quat_null_left)(A, rt),
+                             "null_side:kw": (U.quat_null_right if side == "right" else U.quat_null_left)(A, rtol=np.float64(rt))}
+                except Exception as e:
+                    ctx.check("unexpected_exception", False, site=st, tags=tags, detail={"exception": repr(e), "shape": [m, n], "rtol": rt})
+                    continue
+                ctx.hit("callform:null_rtol_explicit")
+                k = dim - keep
+                for fname, Nf in forms.items():
+                    okf = getattr(Nf, "ndim", 0) == 2 and Nf.shape == (dim, k)
+                    ctx.check("null:column_count", okf, site=st + ":" + fname, tags=tags,
+                              detail={"shape": getattr(Nf, "shape", None), "expected": [dim, k], "rtol": rt, "svals": full})
+                    if not okf or k == 0:
+                        continue
+                    prod = refq.matmul(A, Nf) if side == "right" else refq.matmul(refq.herm(Nf), A)
+                    ctx.check("null:annihilated", refq.fro(prod), dropped * (1 + 1e-6) + C * max(m, n) * EPS * max(nrm, 1e-300) * max(refq.fro(Nf), 1.0) + 1e-300,
+                              site=st + ":" + fname, tags=tags, detail={"shape": [m, n], "k": k, "rtol": rt, "dropped": dropped})
+                    svf = embed.svals(Nf)
+                    ctx.check("null:independent", bool(len(svf) == k and svf[-1] >= 1e-6 * svf[0] and svf[0] > 0), site=st + ":" + fname, tags=tags)
 
 
 def _rank(spec, ctx, R):
